@@ -227,7 +227,10 @@ package proxy
 //@ extern strings.TrimSpace
 //@   ensures result == trim(s)
 //@ extern strings.Join
+//@   pure
+//@ spec hostOf(hostport string) string
 //@ extern net.SplitHostPort
+//@   ensures result2 == nil ==> result0 == hostOf(hostport)
 
 //@ func copyHeader
 //@   modifies MV:map[string][]string, MD:map[string][]string
@@ -247,6 +250,8 @@ package proxy
 //@   ensures [fresh_request] result0 != nil && result0 != r && result0.Header != nil
 //@   ensures [hop_removed] forall(j, 0, len(hopHeaders), !has(result0.Header, hopHeaders[j]))
 //@   ensures [connection_all_values] forall(a, 0, len(old(r.Header["Connection"])), forall(b, 0, ntok(old(r.Header["Connection"])[a]), named(old(r.Header["Connection"])[a], b) ==> !has(result0.Header, nm(old(r.Header["Connection"])[a], b))))
+//@   at call (net/http.Header).Set before [client_address_appended_to_all_prior_forwarded_for_values] (arg1 == "X-Forwarded-For" && has(outreq.Header, "X-Forwarded-For")) ==> arg2 == strings.Join(outreq.Header["X-Forwarded-For"], ", ") + ", " + hostOf(r.RemoteAddr)
+//@   at call (net/http.Header).Set before [client_address_alone_when_first_proxy] (arg1 == "X-Forwarded-For" && !has(outreq.Header, "X-Forwarded-For")) ==> arg2 == hostOf(r.RemoteAddr)
 //@   ensures [client_headers_untouched] r.Header == old(r.Header) && forallT(k, string, k != "X-Forwarded-For" ==> (has(r.Header, k) == old(has(r.Header, k)) && r.Header[k] == old(r.Header[k])))
 //@   loop 1 invariant outreqOK() && clientUntouched()
 //@   loop 1 invariant 0 <= #i && #i <= len(CV())
